@@ -14,6 +14,7 @@
    ("dropped exactly once") and set's Err(value) hand-back as a theorem; blocking forms and thread interleavings. *)
 From AL Require Import Base Api OnceApi OnceInv.
 From AL.Tie Require Tie_OnceCell.
+From AL.Sched Require OnceSched.
 
 Theorem C04_once : forall ops : list oop, N.of_nat (length ops) < ONCE_BOUND ->
   let x := orun ops in
@@ -33,6 +34,29 @@ Proof. exact once_value_visible. Qed.
 Theorem C04_no_error : forall ops : list oop, N.of_nat (length ops) < ONCE_BOUND -> serr (o_sh (orun ops)) = false.
 Proof. exact once_no_error. Qed.
 
+(* ---- schedule half: every interleaving of the atomic operations on the state word, ANY number of threads:
+   exactly one initialiser while Initializing, none otherwise; the slot is written only by it; the cell is
+   initialised at most once ---- *)
+Theorem C04_excl_sched : forall (n : nat) (sched : list (nat * OnceSched.oaction)),
+  OnceSched.OExcl (OnceSched.orun OnceSched.gen_oords n sched).
+Proof. intros n sched. apply OnceSched.orun_OExcl. Qed.
+
+(* ---- happens-before half (view semantics): "only a complete value is ever visible" — every reference handed
+   out by a load that reads Initialized is to a value whose write (its ticket) is in the receiving thread's
+   view. Its only premises about the code are the Orderings read from the source: the loads are Acquire and
+   the store of Initialized is a Release (once_ord_premises) ---- *)
+Theorem C04_hb_view : forall (n : nat) (sched : list (nat * OnceSched.oaction)),
+  OnceSched.OHb (OnceSched.orun OnceSched.gen_oords n sched).
+Proof.
+  intros n sched. apply OnceSched.orun_OHb. pose proof OnceSched.once_ord_premises as P.
+  unfold OnceSched.once_ord_ok in P. apply andb_prop in P. exact (proj1 P).
+Qed.
+
+Example C04_sched_nonvacuous :
+  let g := OnceSched.orun OnceSched.gen_oords 2 [(0, OnceSched.OCas); (1, OnceSched.OCas); (1, OnceSched.OLoad); (0, OnceSched.OWrite); (0, OnceSched.OStoreInit); (1, OnceSched.OLoad)]%nat in
+  OnceSched.og_st g = 2 /\ (exists t, nth_error (OnceSched.og_thr g) 1 = Some t /\ OnceSched.ot_refs t = [0%nat] /\ In 0%nat (OnceSched.ot_view t)).
+Proof. vm_compute. split; [reflexivity|]. eexists. split; [reflexivity|]. split; [reflexivity | left; reflexivity]. Qed.
+
 (* non-vacuity: two get_or_init race; the first runs its closure, the second queues; the first fails;
    the second is woken, runs its own closure and initialises; a late `set` gets its argument back *)
 Example C04_nonvacuous :
@@ -42,5 +66,7 @@ Example C04_nonvacuous :
 Proof. vm_compute. reflexivity. Qed.
 
 Print Assumptions C04_once.
+Print Assumptions C04_excl_sched.
+Print Assumptions C04_hb_view.
 Print Assumptions C04_value_visible.
 Print Assumptions C04_no_error.
